@@ -431,7 +431,7 @@ func checkStreamingGaveUp(c *Ctx, r *Report) {
 			if setsStatus(sc) && len(cc.Args) >= 2 {
 				if k, ok := constInt(cc.Args[1]); ok && k >= 400 {
 					// control-dependent on err != nil
-					for _, cf := range condFacts(in.Block()) {
+					for _, cf := range normFacts(condFacts(in.Block())) {
 						if bo, ok := cf.Cond.(*ssa.BinOp); ok && bo.X == ssa.Value(proxyCall) && bo.Op == token.NEQ && cf.True {
 							mark = in
 						}
@@ -470,7 +470,7 @@ func checkStreamingGaveUp(c *Ctx, r *Report) {
 	key := fname(w) + ":waiter-branches-on-status"
 	ok := false
 	if transform != nil {
-		for _, cf := range condFacts(transform.Block()) {
+		for _, cf := range normFacts(condFacts(transform.Block())) {
 			if bo, isB := cf.Cond.(*ssa.BinOp); isB && bo.Op == token.GEQ && !cf.True && mentionsRecorderStatus(c, bo.X, 3) {
 				if k, _ := constInt(bo.Y); k == 400 {
 					ok = true
@@ -529,6 +529,13 @@ func mentionsRecorderStatus(c *Ctx, v ssa.Value, depth int) bool {
 	}
 	if isRecorderStatusAddr(c, v) {
 		return true
+	}
+	if prm, isP := v.(*ssa.Parameter); isP {
+		for _, a := range paramBindings[prm] {
+			if mentionsRecorderStatus(c, a, depth-1) {
+				return true
+			}
+		}
 	}
 	in, ok := v.(ssa.Instruction)
 	if !ok {
